@@ -4,7 +4,9 @@ Local Open Scope N_scope.
 
 (** * the keys of the reference map are pairwise different (add_decl_reference never overwrites) *)
 
-Definition Q (st : state) : Prop := NoDup (map fst (st_refs st)).
+Definition Q (st : state) : Prop :=
+  NoDup (map fst (st_refs st)) /\
+  map (fun c => (fst (snd c), fst c)) (st_cells st) = map (fun r => (fst r, d_pos (snd r))) (st_refs st).
 
 Lemma lookup_ref_none_notin : forall p refs, lookup_ref p refs = None -> ~ In p (map fst refs).
 Proof.
@@ -22,22 +24,21 @@ Proof.
   - apply IH; [exact Hr|]. intros H. apply Hni. right. exact H.
 Qed.
 
-Lemma Q_add_ref : forall p d st, Q st -> Q (add_ref p d st).
+Lemma Q_add_ref : forall p e d st, Q st -> Q (add_ref p e d st).
 Proof.
-  intros p d st H. unfold add_ref. destruct (lookup_ref p (st_refs st)) eqn:E; [exact H|].
-  unfold Q. cbn [st_refs]. rewrite map_app. cbn [map fst].
-  apply NoDup_snoc; [exact H|apply lookup_ref_none_notin; exact E].
+  intros p e d st (H & Hl). unfold add_ref. destruct (lookup_ref p (st_refs st)) eqn:E; [split; assumption|].
+  unfold Q. cbn [st_refs st_cells]. rewrite !map_app. cbn [map fst snd]. split.
+  - apply NoDup_snoc; [exact H|apply lookup_ref_none_notin; exact E].
+  - rewrite Hl. reflexivity.
 Qed.
 
-Lemma Q_same : forall st st', st_refs st' = st_refs st -> Q st -> Q st'.
-Proof. intros st st' E H. unfold Q. rewrite E. exact H. Qed.
+Lemma Q_same : forall st st', st_refs st' = st_refs st /\ st_cells st' = st_cells st -> Q st -> Q st'.
+Proof. intros st st' (E & E') H. unfold Q. rewrite E, E'. exact H. Qed.
 
-Lemma refs_add_decl : forall d st, st_refs (add_decl d st) = st_refs st.
-Proof. intros d st. unfold add_decl. destruct (st_z st); reflexivity. Qed.
-Lemma refs_create : forall s e k st, st_refs (create_scope s e k st) = st_refs st.
-Proof. reflexivity. Qed.
-Lemma refs_pop : forall st, st_refs (pop_scope st) = st_refs st.
-Proof. intros st. unfold pop_scope. destruct (st_z st) as [|f [|g z]]; reflexivity. Qed.
+Lemma refs_add_decl : forall d st, st_refs (add_decl d st) = st_refs st /\ st_cells (add_decl d st) = st_cells st.
+Proof. intros d st. unfold add_decl. destruct (st_z st); split; reflexivity. Qed.
+Lemma refs_pop : forall st, st_refs (pop_scope st) = st_refs st /\ st_cells (pop_scope st) = st_cells st.
+Proof. intros st. unfold pop_scope. destruct (st_z st) as [|f [|g z]]; split; reflexivity. Qed.
 
 Definition Pres (f : state -> state) : Prop := forall st, Q st -> Q (f st).
 
@@ -47,8 +48,8 @@ Lemma Pres_create : forall s e k, Pres (create_scope s e k).
 Proof. intros s e k st H. exact H. Qed.
 Lemma Pres_pop : Pres pop_scope.
 Proof. intros st H. eapply Q_same; [apply refs_pop|exact H]. Qed.
-Lemma Pres_add_ref : forall p d, Pres (add_ref p d).
-Proof. intros p d st H. apply Q_add_ref. exact H. Qed.
+Lemma Pres_add_ref : forall p e d, Pres (add_ref p e d).
+Proof. intros p e d st H. apply Q_add_ref. exact H. Qed.
 Lemma Pres_id : Pres (fun st => st).
 Proof. intros st H. exact H. Qed.
 Lemma Pres_comp : forall f g, Pres f -> Pres g -> Pres (fun st => g (f st)).
@@ -56,7 +57,7 @@ Proof. intros f g Hf Hg st H. apply Hg, Hf, H. Qed.
 
 Lemma Pres_name : forall x p, Pres (analyze_name_expr x p).
 Proof.
-  intros x p st H. unfold analyze_name_expr.
+  intros x p st H. unfold analyze_name_expr. cbv zeta.
   destruct (get_decl p st); [apply Q_add_ref; exact H|].
   destruct (find_decl x p st) as [d|]; [|exact H].
   destruct (is_local d); [apply Q_add_ref; exact H|].
@@ -120,7 +121,7 @@ Qed.
 Lemma Q_program : forall p, Q (walk_program p).
 Proof.
   intros p. unfold walk_program.
-  assert (H0 : Q (create_scope 0 (len_block p) KNormal (mkState [] [] []))) by constructor.
+  assert (H0 : Q (create_scope 0 (len_block p) KNormal (mkState [] [] [] []))) by (split; [constructor|reflexivity]).
   destruct (has_items p); [|exact H0].
   apply Pres_pop. apply (proj2 (proj2 (proj2 (proj2 Pres_walk)))). exact H0.
 Qed.
@@ -164,10 +165,24 @@ Qed.
 Definition resolve_B (st : state) (u : N) : option N :=
   match lookup_ref u (st_refs st) with Some dd => Some (d_pos dd) | None => None end.
 
+(** the cell lists and the map are filled in lockstep *)
+Lemma cells_of_refs : forall (cells : list (N * (N * N))) (refs : list (N * decl)) d,
+  map (fun c => (fst (snd c), fst c)) cells = map (fun r => (fst r, d_pos (snd r))) refs ->
+  map fst (map snd (filter (fun c => fst c =? d) cells)) = map fst (filter (fun r => d_pos (snd r) =? d) refs).
+Proof.
+  induction cells as [|c t IH]; intros refs d H; destruct refs as [|r t']; try discriminate; [reflexivity|].
+  cbn [map] in H. injection H as H1 H2 H3. cbn [filter]. rewrite H2.
+  destruct (d_pos (snd r) =? d); cbn [map]; rewrite (IH t' d H3); [rewrite H1|]; reflexivity.
+Qed.
+
+Lemma decl_cells_refs : forall p d,
+  decl_cells (walk_program p) d = map fst (filter (fun r => d_pos (snd r) =? d) (st_refs (walk_program p))).
+Proof. intros p d. unfold decl_cells, decl_cell_ranges. apply cells_of_refs. apply (proj2 (Q_program p)). Qed.
+
 Theorem refs_eq_preimage : forall (p : program) (d u : N),
   In u (decl_cells (walk_program p) d) <-> resolve_B (walk_program p) u = Some d.
 Proof.
-  intros p d u. unfold decl_cells, resolve_B. rewrite (cells_preimage _ d u (Q_program p)). split.
+  intros p d u. rewrite decl_cells_refs. unfold resolve_B. rewrite (cells_preimage _ d u (proj1 (Q_program p))). split.
   - intros (dd & Hl & Hd). rewrite Hl, Hd. reflexivity.
   - intros H. destruct (lookup_ref u (st_refs (walk_program p))) as [dd|]; [|discriminate].
     injection H as H. exists dd. split; [reflexivity|exact H].
@@ -200,41 +215,57 @@ Qed.
 
 (** * rename edits *)
 
-Lemma nodupN_in : forall l a, In a (nodupN l) <-> In a l.
+Lemma range_eqb_eq : forall a b, range_eqb a b = true <-> a = b.
 Proof.
-  induction l as [|b r IH]; intros a; [reflexivity|]. cbn [nodupN].
-  destruct (existsb (N.eqb b) r) eqn:E.
+  intros [a1 a2] [b1 b2]. unfold range_eqb. cbn [fst snd]. rewrite andb_true_iff, !N.eqb_eq. split.
+  - intros (-> & ->). reflexivity.
+  - intros E. injection E as -> ->. split; reflexivity.
+Qed.
+
+Lemma nodupR_in : forall l a, In a (nodupR l) <-> In a l.
+Proof.
+  induction l as [|b r IH]; intros a; [reflexivity|]. cbn [nodupR].
+  destruct (existsb (range_eqb b) r) eqn:E.
   - rewrite IH. split; [intros H; right; exact H|]. intros [<- | H]; [|exact H].
-    apply existsb_exists in E. destruct E as (c & Hc & Hbc). apply N.eqb_eq in Hbc. subst c. exact Hc.
+    apply existsb_exists in E. destruct E as (c & Hc & Hbc). apply range_eqb_eq in Hbc. subst c. exact Hc.
   - cbn [In]. rewrite IH. reflexivity.
 Qed.
 
-Lemma nodupN_nodup : forall l, NoDup (nodupN l).
+Lemma nodupR_nodup : forall l, NoDup (nodupR l).
 Proof.
-  induction l as [|b r IH]; [constructor|]. cbn [nodupN].
-  destruct (existsb (N.eqb b) r) eqn:E; [exact IH|].
-  constructor; [|exact IH]. intros H. apply (proj1 (nodupN_in r b)) in H.
-  assert (existsb (N.eqb b) r = true) by (apply existsb_exists; exists b; split; [exact H|apply N.eqb_refl]). congruence.
+  induction l as [|b r IH]; [constructor|]. cbn [nodupR].
+  destruct (existsb (range_eqb b) r) eqn:E; [exact IH|].
+  constructor; [|exact IH]. intros H. apply (proj1 (nodupR_in r b)) in H.
+  assert (existsb (range_eqb b) r = true) by (apply existsb_exists; exists b; split; [exact H|apply range_eqb_eq; reflexivity]). congruence.
 Qed.
 
 Definition edit_start (e : edit) : N := fst (fst e).
+Definition edit_range (e : edit) : N * N := fst e.
 
-(** the edits of a rename are exactly the declaration token and the references of the declaration: each position
-    once, each edit replacing a token-sized range by the new name *)
+(** the edits of a rename are exactly the declaration token and the references of the declaration: each range
+    once, with the new name *)
 Theorem rename_edits_exact : forall (p : program) (d : N) (x new : name),
   let st := walk_program p in
   let es := impl_rename st d x new in
-  (forall q, In q (map edit_start es) <-> q = d \/ In q (decl_cells st d)) /\
+  (forall r, In r (map edit_range es) <-> r = (d, d + nlen x) \/ In r (decl_cell_ranges st d)) /\
   (forall q, In q (map edit_start es) <-> q = d \/ resolve_B st q = Some d) /\
-  NoDup (map edit_start es) /\
-  Forall (fun e => e = (edit_start e, edit_start e + nlen x, new)) es.
+  NoDup (map edit_range es) /\
+  Forall (fun e => snd e = new) es.
 Proof.
   intros p d x new st es. unfold es, impl_rename.
-  assert (Hmap : map edit_start (map (fun q => (q, q + nlen x, new)) (nodupN (d :: decl_cells st d))) = nodupN (d :: decl_cells st d)).
-  { rewrite map_map. cbn [edit_start fst]. apply map_id. }
-  rewrite Hmap. split; [|split; [|split]].
-  - intros q. rewrite nodupN_in. cbn [In]. split; intros [H|H]; auto.
-  - intros q. rewrite nodupN_in. cbn [In]. unfold st. rewrite (refs_eq_preimage p d q). split; intros [H|H]; auto.
-  - apply nodupN_nodup.
-  - apply Forall_forall. intros e He. apply in_map_iff in He. destruct He as (q & <- & _). reflexivity.
+  set (rs := nodupR ((d, d + nlen x) :: decl_cell_ranges st d)).
+  assert (Hmap : map edit_range (map (fun r => (fst r, snd r, new)) rs) = rs).
+  { rewrite map_map. unfold edit_range. cbn [fst]. rewrite <- (map_id rs) at 2. apply map_ext. intros [a b]. reflexivity. }
+  assert (Hstart : map edit_start (map (fun r => (fst r, snd r, new)) rs) = map fst rs).
+  { rewrite map_map. reflexivity. }
+  split; [|split; [|split]].
+  - intros r. rewrite Hmap. unfold rs. rewrite nodupR_in. cbn [In]. split; intros [H|H]; auto.
+  - intros q. rewrite Hstart. unfold st. rewrite <- (refs_eq_preimage p d q). unfold decl_cells. split.
+    + intros H. apply in_map_iff in H. destruct H as (r & <- & Hr). unfold rs in Hr. apply (proj1 (nodupR_in _ _)) in Hr.
+      destruct Hr as [<- | Hr]; [left; reflexivity|right; apply in_map; exact Hr].
+    + intros [-> | H].
+      * apply in_map_iff. exists (d, d + nlen x). split; [reflexivity|]. unfold rs. apply (proj2 (nodupR_in _ _)). left. reflexivity.
+      * apply in_map_iff in H. destruct H as (r & <- & Hr). apply in_map. unfold rs. apply (proj2 (nodupR_in _ _)). right. exact Hr.
+  - rewrite Hmap. apply nodupR_nodup.
+  - apply Forall_forall. intros e He. apply in_map_iff in He. destruct He as (r & <- & _). reflexivity.
 Qed.
